@@ -164,6 +164,7 @@ func runImpostor(p *impPlan) (res impResult) {
 			res.hGot = append(res.hGot, buf[:n]...)
 			if err != nil {
 				res.hReadErr = err
+				ch.CloseRead() // refuse the rest, so that a peer still writing to us ends too
 				break
 			}
 		}
